@@ -224,4 +224,77 @@ theorem inv_first (hg : GtOk c) {x0 : X} {y0 : Y} (h0 : c.f x0 = .val y0) (hb : 
 
 end
 
+/-! ### the start clamp of `Calculator.optimise` -/
+section
+variable {R : Type} [LinearOrder R]
+
+theorem clamp_pointwise (c : Coord R) (h : c.lo ≤ c.hi) :
+    let c1 : Coord R := if decide (c.x < c.lo) then { c with x := c.lo } else c
+    let c2 : Coord R := if decide (c1.hi < c1.x) then { c1 with x := c1.hi } else c1
+    (!(decide (c2.x < c2.lo)) && !(decide (c2.hi < c2.x))) = true := by
+  intro c1 c2
+  by_cases h1 : c.x < c.lo
+  · have e1 : c1 = { c with x := c.lo } := by simp [c1, h1]
+    have hn : ¬ (c.hi < c.lo) := not_lt.mpr h
+    have e2 : c2 = c1 := by simp [c2, e1, hn]
+    rw [e2, e1]
+    simp [h]
+  · have e1 : c1 = c := by simp [c1, h1]
+    by_cases h2 : c.hi < c.x
+    · have e2 : c2 = { c with x := c.hi } := by simp [c2, e1, h2]
+      rw [e2]
+      simp [h]
+    · have e2 : c2 = c := by simp [c2, e1, h2]
+      rw [e2]
+      simp [not_lt.mp h1, not_lt.mp h2]
+
+theorem clampStart_inBounds (close : R → R → Bool) (v : List (Coord R))
+    (hlohi : ∀ c ∈ v, c.lo ≤ c.hi)
+    (hL : v.all (fun c => !(decide (c.x < c.lo)) || close c.x c.lo) = true)
+    (hH : (clampLow (fun a b => decide (a < b)) close v).all
+            (fun c => !(decide (c.hi < c.x)) || close c.x c.hi) = true) :
+    inBounds (fun a b => decide (a < b)) (clampStart (fun a b => decide (a < b)) close v) = true := by
+  unfold clampStart clampHigh
+  rw [if_pos hH]
+  unfold clampLow
+  rw [if_pos hL]
+  unfold inBounds
+  rw [List.all_eq_true]
+  intro c hc
+  simp only [List.map_map, List.mem_map] at hc
+  obtain ⟨c0, hc0, rfl⟩ := hc
+  exact clamp_pointwise c0 (hlohi c0 hc0)
+
+theorem clampStart_id (close : R → R → Bool) (v : List (Coord R))
+    (h : inBounds (fun a b => decide (a < b)) v = true) :
+    clampStart (fun a b => decide (a < b)) close v = v := by
+  unfold inBounds at h
+  rw [List.all_eq_true] at h
+  have hmapL : v.map (fun c : Coord R => if decide (c.x < c.lo) then { c with x := c.lo } else c) = v := by
+    conv => rhs; rw [← List.map_id v]
+    apply List.map_congr_left
+    intro c hc
+    have := h c hc
+    simp at this
+    simp [not_lt.mpr this.1]
+  have hmapH : v.map (fun c : Coord R => if decide (c.hi < c.x) then { c with x := c.hi } else c) = v := by
+    conv => rhs; rw [← List.map_id v]
+    apply List.map_congr_left
+    intro c hc
+    have := h c hc
+    simp at this
+    simp [not_lt.mpr this.2]
+  have eL : clampLow (fun a b => decide (a < b)) close v = v := by
+    unfold clampLow
+    split
+    · exact hmapL
+    · rfl
+  unfold clampStart
+  rw [eL]
+  unfold clampHigh
+  split
+  · exact hmapH
+  · rfl
+end
+
 end CogentModel.Optimiser
